@@ -40,7 +40,7 @@ class C07(Prop):
     quick_cases = 1200
     thorough_cases = 20000
     quick_budget_s = 45
-    rule = ('fixed: parallelize layouts for ALL len 0..12 x n 0..15 and sampled large (len to 10^5, n to 10^4); coalesce '
+    rule = ('fixed: parallelize layouts for ALL len 0..40 x n 0..64 (thorough: 0..120 x 0..200) and sampled large (len to 10^5, n to 10^4); coalesce '
             'for ALL (cur, target) <= 16 (quick) / 40 (thorough) on singleton partitions plus random layouts with empty '
             'partitions; repartition; partitionBy with custom and default partitioner over the portable key domain; '
             'mapPartitionsWithIndex; zipWithUniqueId; 4 child interpreters with PYTHONHASHSEED in {0,1,2,random} whose '
@@ -56,8 +56,9 @@ class C07(Prop):
 
     def fixed_cases(self, tier):
         out = []
-        for ln in range(0, 13):
-            for n in range(0, 16):
+        top_len, top_n = (40, 64) if tier == 'quick' else (120, 200)
+        for ln in range(0, top_len + 1):
+            for n in range(0, top_n + 1):
                 out.append({'op': 'parallelize', 'len': ln, 'n': n})
         for ln, n in [(100, 7), (1000, 999), (1000, 1001), (12345, 100), (99999, 10000), (100000, 3), (65537, 4096),
                       (5, 1000), (0, 1000), (1, 10000)]:
